@@ -304,7 +304,7 @@ def configs(tier, seed):
     FS_FD = [12, 16, 20, 24, 32, 48, 64]
     if tier == "quick":
         Ls = list(range(1, 41)) + [62, 63, 111, 112, 113, 118, 119, 120, 4094, 4095]
-        fss = [8]
+        fss = [8, 12, 64]
         seqs = [(3, 9), (9, 3), (20, 20), (7, 8, 6)]
         inter = [(((9,), (3,)), 1), (((9,), (10,)), 0), (((3,), (3,), (3,)), 1), (((10,), (3,)), 1),
                  (((3, 9), (9, 9)), 0), (((9, 3), (9,)), 1)]
@@ -321,7 +321,7 @@ def configs(tier, seed):
                  (((9, 9), (9,), (9,)), 0)]
         act = [(L, 8, ps) for L in (1, 6, 7, 8, 13, 14, 20, 120, 1800, 4095) for ps in (0, 3, 8)]
     for fs in fss:
-        for L in Ls:
+        for L in (Ls if fs == 8 or tier != "quick" else [1, 7, 63, 64, 70, 130, 4095]):
             if fs > 8 and L > 7 and L <= fs - 2:
                 continue  # CAN FD would use an escape-length single frame (not in the envelope)
             for pad in ([False, True] if (fs == 8 or L in (1, 9, 70)) else [True]):
